@@ -148,7 +148,13 @@ func c12DecGen(t *rapid.T) []byte {
 		}
 		stream = append(stream, r.Encode()...)
 	}
-	switch rapid.IntRange(0, 5).Draw(t, "tailkind") {
+	switch rapid.IntRange(0, 7).Draw(t, "tailkind") {
+	case 6, 7:
+		r := Req{Name: Bin(rapid.SampledFrom([]string{"get", "set", "mget", "eval", "mset", "del"}).Draw(t, "nname"))}
+		for a := rapid.IntRange(1, 4).Draw(t, "nn"); a > 0; a-- {
+			r.Args = append(r.Args, Bin(rapid.SampledFrom([]string{"k", "", "1", "key{x}"}).Draw(t, "narg")))
+		}
+		stream = append(stream, c12NumberSwap(t, r.Encode())...)
 	case 0:
 		stream = append(stream, rapid.SampledFrom(c12Hostile).Draw(t, "hostile")...)
 	case 1:
